@@ -63,14 +63,15 @@ TPoll ==
   /\ IsEvent("p_poll")
   /\ TimeOf(Ev.now) = now
   /\ PPoll(SetOf(Ev.fds), Ev.tmo, TimeOf(Ev.t0),
-           [s \in SetOf(Ev.fds) |-> SetOf(Ev.rev[CHOOSE i \in 1..Len(Ev.fds) : Ev.fds[i] = s])])
+           [s \in SetOf(Ev.fds) |-> SetOf(Ev.rev[CHOOSE i \in 1..Len(Ev.fds) : Ev.fds[i] = s])],
+           TimeOf(Ev.clk), Ev.fresh)
   /\ UNCHANGED scn
 
 TBlock  == IsEvent("p_block") /\ PBlock /\ UNCHANGED scn
 TRead   == IsEvent("p_read") /\ PRead(Ev.s, Ev.want, Ev.ids) /\ UNCHANGED scn
 TWpart  == IsEvent("p_wpart") /\ PWpart(Ev.ids) /\ UNCHANGED scn
 TWrite  == IsEvent("p_write") /\ (IF Ev.n < 0 THEN PWriteEpipe ELSE PWrite(Ev.ids, Ev.n)) /\ UNCHANGED scn
-TEintr  == IsEvent("p_eintr") /\ PEintr /\ UNCHANGED scn
+TEintr  == IsEvent("p_eintr") /\ (IF Ev.sys = "poll" THEN PPollEintr(Ev.tmo, TimeOf(Ev.clk), Ev.fresh) ELSE PEintr) /\ UNCHANGED scn
 TClose  == IsEvent("p_close") /\ PClose(Ev.s) /\ UNCHANGED scn
 TStuck  == IsEvent("stuck") /\ Stuck(Ev.timer) /\ UNCHANGED scn
 TRunaway == IsEvent("runaway") /\ Runaway /\ UNCHANGED scn
